@@ -30,6 +30,10 @@ func init() {
 			ruleDeleteOrch(c, "C03.ORCH")
 			// an index bucket that is not there is reported as not there
 			ruleMissingPathNil(c, "C03.PATHNIL")
+			// what is declared is applied: every constraint handed to AddConstraint is registered, and a create runs
+			// the index protocol as a create
+			ruleConstraintRegistered(c, "C03.CONSTRAINTREG")
+			ruleCreateIsCreate(c, "C03.CREATECTX")
 			ruleOldFirst(c, "C03.OLDFIRST", []string{"uniqueIndex"})
 			ruleUnchangedShortcut(c, "C03.UNCHANGED", []string{"uniqueIndex"})
 			rulePathFresh(c, "C03.PATHFRESH")
@@ -68,6 +72,8 @@ func init() {
 			ruleErrorLookedAtOnEveryPath(c, "C04.LOOKEDAT", c.prodFuncs("boltz"))
 			// the cascade terminates on cyclic references
 			ruleCascadeReentry(c, "C04.CASCADECYCLE")
+			ruleConstraintRegistered(c, "C04.CONSTRAINTREG")
+			ruleFreshCascadeFilter(c, "C04.FRESHFILTER")
 			// the cascade re-positions its id cursor with Seek(Current()) after every delete: Seek must really
 			// re-seek the underlying bolt cursor
 			ruleSeekAbsolute(c, "C04.RESEEK")
@@ -91,6 +97,7 @@ func init() {
 		},
 		Rules: func(c *Ctx) {
 			ruleLinkPair(c, "C05.PAIR")
+			ruleSymbolPathNotName(c, "C05.NAMEPATH")
 			rulePutFresh(c, "C05.PUTFRESH")
 			ruleTaggedOnce(c, "C05.KEYTAG")
 			ruleNoStats(c, "C05.NOSTATS")
@@ -143,6 +150,9 @@ func init() {
 			ruleDeleteOrch(c, "C06.ORCH")
 			// the cascade finds the referrers of exactly the id being deleted, on every (also nested) delete
 			ruleRawIdFilter(c, "C06.RAWID")
+			ruleFreshCascadeFilter(c, "C06.FRESHFILTER")
+			// the delete rule of a foreign key is registered on the store whose entities are referenced
+			ruleFkWiring(c, "C06.WIRING")
 			rulePairCapture(c, "C06.REMOVERS")
 			ruleOldFirst(c, "C06.STALE", []string{"uniqueIndex", "fkIndex"})
 			ruleLinkCleanup(c, "C06.LINKS")
